@@ -7,4 +7,4 @@ Separate Extraction
   BTreeModel.lower_bound BTreeModel.upper_bound BTreeModel.find BTreeModel.contains BTreeModel.key_count
   BTreeModel.iter_index BTreeModel.nth_iter BTreeModel.contents BTreeModel.end_iter
   BTreeModel.copy_tree BTreeModel.reset_key BTreeModel.remove_key BTreeModel.remove_if
-  BTreeModel.merge_to BTreeModel.remove_range BTreeModel.remove_key_multi BTreeModel.shape_of BTreeModel.traverse_fwd BTreeModel.traverse_bwd BTreeModel.cnt.
+  BTreeModel.merge_to BTreeModel.insert_range BTreeModel.remove_range BTreeModel.remove_key_multi BTreeModel.shape_of BTreeModel.traverse_fwd BTreeModel.traverse_bwd BTreeModel.cnt.
